@@ -104,6 +104,7 @@ def main():
     ap.add_argument('--seed', type=int, default=1)
     ap.add_argument('--timeout', type=int, default=3600)
     ap.add_argument('--no-write', action='store_true')
+    ap.add_argument('--jobs', type=int, default=1, help='changes audited concurrently (each check itself uses 16 processes)')
     ap.add_argument('--dir', default='seeded', help="'seeded' (breaking changes: a VIOLATION is expected) or 'benign' (property-preserving changes: the check must stay quiet)")
     a = ap.parse_args()
     names = sorted(n for n in os.listdir(os.path.join(ROOT, a.dir))
@@ -115,8 +116,11 @@ def main():
     prev = {}
     if os.path.exists(path):
         prev = {r['name']: r for r in json.load(open(path))['results']}
+    from concurrent.futures import ThreadPoolExecutor
+    with ThreadPoolExecutor(max(1, a.jobs)) as pool:
+        all_results = list(pool.map(lambda n: (n, audit_one(n, a)), names)) if a.jobs > 1 else None
     for n in names:
-        r = audit_one(n, a)
+        r = dict(all_results)[n] if all_results is not None else audit_one(n, a)
         r['tier'] = a.tier
         r['seed'] = a.seed
         old = prev.get(n, {})
